@@ -472,3 +472,27 @@ def latent_projection(nodes, di, latent) -> G:
         for a, b in itt.combinations(r, 2):
             new_bi.add((a, b))
     return G(obs, tuple(sorted(new_di)), tuple(sorted(new_bi)))
+
+
+# ---------------------------------------------------------------- irreducible ID queries
+
+
+def irreducible_queries(g: G) -> Iterator[tuple]:
+    """(X, Y) on which the first step of the ID recursion is none of lines 2, 3, 4.
+
+    An(Y) in G is all of V (line 2 would otherwise restrict to a smaller graph), every node outside X is
+    an ancestor of Y once the edges into X are cut (line 3 would otherwise enlarge X to another enumerated
+    query on the same graph), and G minus X is a single district (line 4 would otherwise split into
+    sub-queries (V minus S, S) that are themselves enumerated).  Every query reduces to irreducible ones on
+    the same or a smaller graph by those three lines, whose own formulas are exercised exhaustively at n<=4.
+    """
+    nodes = g.nodes
+    for x, y in disjoint_pairs(nodes):
+        if len(ancestors_inc(g, y)) != len(nodes):
+            continue
+        gx = remove_in_edges(g, x)
+        if set(ancestors_inc(gx, y)) | set(x) != set(nodes):
+            continue
+        if len(districts(remove_nodes(g, x))) != 1:
+            continue
+        yield x, y
